@@ -126,20 +126,22 @@ claim("C20", "Exact decision of: Equals/UncheckedEquals clause lockstep over phy
 
 # Clauses added after the claim texts above were written (rules from the seeded-change rounds; DESIGN.md 3.7).
 _ADDED = {
-    "C01": "Ok() grouping records every field on every path and emits every group (R-OKCOVER); synthesised size/$next expressions have the documented shape (R-SYNTH); intermediate and selected C++ integer types (R-INTERMEDIATE, R-INTRANGE).",
-    "C02": "every OffsetBitBlock method that touches the underlying block applies offset_ (R-WINDOW).",
-    "C03": "alias write method only for virtual fields without their own [requires] (R-ALIASGUARD); window offset applied on every storage access (R-WINDOW).",
-    "C04": "static (alignment, offset) of a sub-buffer depends on parent and relative facts (R-SUBALIGN); sub-buffer size clamped with guarded unsigned difference (R-CLAMP); R-INTRANGE, R-INTERMEDIATE.",
+    "C01": "three-valued And/Or/Choice truth tables over the whole Maybe domain (R-KLEENE); Ok() grouping records every field on every path and emits every group (R-OKCOVER); synthesised size/$next expressions have the documented shape (R-SYNTH); intermediate and selected C++ integer types (R-INTERMEDIATE, R-INTRANGE).",
+    "C02": "BCD read loop covers every bit for all widths (R-LOOPCOVER); MaskToNBits masks folded for every width (R-CPPRANGE); every OffsetBitBlock method that touches the underlying block applies offset_ (R-WINDOW).",
+    "C03": "CouldWriteValue bounds of UIntView/IntView/BcdView/EnumView folded with a typed C++ constant folder for every width, keep-mask of MaskInValue for every (width, offset, size) (R-CPPRANGE); BCD write loop coverage (R-LOOPCOVER); alias write method only for virtual fields without their own [requires] (R-ALIASGUARD); window offset applied on every storage access (R-WINDOW).",
+    "C04": "text decoder overflow guard dependencies (R-GUARDDEPS); static (alignment, offset) of a sub-buffer depends on parent and relative facts (R-SUBALIGN); sub-buffer size clamped with guarded unsigned difference (R-CLAMP); R-INTRANGE, R-INTERMEDIATE.",
     "C05": "leaf ranges and 64-bit predicates folded for every width (R-INTRANGE); C++ intermediate type covers result and operands (R-INTERMEDIATE).",
-    "C06": "writer and reader templates of text names get the same name expression (R-TEXTNAME); overflow guard depends on every operand (R-GUARDDEPS).",
+    "C06": "array element separators agree between writer and reader per output mode (R-ARRAYSEP, known finding); alias ordering inside anonymous bits (R-ALIASDEPS, known finding); writer and reader templates of text names get the same name expression (R-TEXTNAME); overflow guard depends on every operand (R-GUARDDEPS).",
     "C09": "the generator's reader of error_examples agrees with the checker's reader and stores messages unrewritten (R-EXAMPLEFILE).",
-    "C10": "tokenizer and error printer cut lines identically (R-LINESPLIT); Indent/Dedent pairing (R-INDENT).",
-    "C11": "children emitted in right-hand-side order (R-FMTORDER); glued seams re-tokenize unchanged (R-ADJACENCY).",
+    "C10": "name-class patterns equal the languages documented in language-reference.md (R-NAMEREGEX); tokenizer and error printer cut lines identically (R-LINESPLIT); Indent/Dedent pairing (R-INDENT).",
+    "C11": "Indent/Dedent children emitted through an indenting helper (R-FMTINDENT); children emitted in right-hand-side order (R-FMTORDER); glued seams re-tokenize unchanged (R-ADJACENCY).",
     "C12": "lookups behind a field reference use its last component (R-PATHEND); reviewed skip_descendants_of losses (R-SKIPLOSS); duplicate definitions never overwrite (R-DUPNAME).",
-    "C13": "positional requirements are unconditional (R-POSCHECK/conditional); enum identity (R-TYPEEQ); reviewed traversal skips (R-SKIPLOSS).",
-    "C14": "reviewed traversal skips of the constraint validators (R-SKIPLOSS); in-place mutation of shared defaults (R-INCIDENTAL-PURE); boundary intervals (R-BOUNDARY).",
-    "C15": "reviewed traversal skips of the dependency extraction (R-SKIPLOSS).",
-    "C18": "no private encoder of location flags with exclusive or different suffixes (R-LOCENCODE).",
+    "C13": "compatibility checks never excused by the checked expression itself (R-POSCHECK/own-type); positional requirements are unconditional (R-POSCHECK/conditional); enum identity (R-TYPEEQ); reviewed traversal skips (R-SKIPLOSS).",
+    "C14": "flags that distinguish node kinds stay two-valued at their tests (R-DEADFLAG); reviewed traversal skips of the constraint validators (R-SKIPLOSS); in-place mutation of shared defaults (R-INCIDENTAL-PURE); boundary intervals (R-BOUNDARY).",
+    "C15": "ordering places a field only after all its dependencies, Tarjan SCC clauses, self-imports keep their edge (R-TOPOGUARD, R-TARJAN, R-SELFIMPORT); reviewed traversal skips of the dependency extraction (R-SKIPLOSS).",
+    "C18": "options reaching compilation defined identically in embossc and the split drivers and not rewritten (R-DRIVERFLAGS); no private encoder of location flags with exclusive or different suffixes (R-LOCENCODE).",
+    "C07": "namespace validator and emitter cut the attribute into the same components (R-NSPARSE).",
+    "C16": "diagnostics about an object found through a reference carry that object's file (R-FOREIGNFILE); error printer and tokenizer agree on line cutting (R-LINESPLIT); end-of-input parse errors (R-TOKENSHAPE).",
     "C19": "enum name writer/reader agreement (R-TEXTNAME), whole-string name compare (R-EXACTNAME), boundary intervals (R-BOUNDARY, R-INTRANGE).",
 }
 for _pid, _t in _ADDED.items():
